@@ -46,6 +46,27 @@ func ruleGetOrCreate(c *Ctx) {
 				}
 			}
 		}
+		// a store is covered when some lookup of the same map dominates it and the
+		// lock is held from that lookup to the store (double-checked creation:
+		// a first lookup under a read lock, a second one under the write lock)
+		covered := map[*Node]bool{}
+		for _, r := range reads {
+			for _, w := range writes {
+				if r.fv != w.fv || !reachable(g, r.n, w.n) || !g.Dominates(r.n, w.n) {
+					continue
+				}
+				lk := guard[r.fv]
+				good := p.MustHeldAt(f, w.n)[lk] && p.MustHeldAt(f, r.n)[lk]
+				for x := range g.ReachAfter(r.n, func(x *Node) bool { return x == w.n }, nil) {
+					if x.Ast != nil && reachable(g, x, w.n) && !p.MustHeldAt(f, x)[lk] {
+						good = false
+					}
+				}
+				if good {
+					covered[w.n] = true
+				}
+			}
+		}
 		for _, r := range reads {
 			for _, w := range writes {
 				if r.fv != w.fv || !reachable(g, r.n, w.n) {
@@ -54,6 +75,10 @@ func ruleGetOrCreate(c *Ctx) {
 				n++
 				lk := guard[r.fv]
 				construct := "lookup-or-create on " + names[r.fv]
+				if covered[w.n] {
+					c.R.Hold("R-GUARD/getorcreate", p.Pos(w.n.Ast), f.Name, construct, p.lockName(lk)+" is held continuously from a lookup that dominates the store to the store", true)
+					continue
+				}
 				bad := false
 				seen := g.ReachAfter(r.n, func(x *Node) bool { return x == w.n }, nil)
 				for x := range seen {
